@@ -3,6 +3,7 @@ import Xo.Lemmas.LayoutRT
 import Xo.Lemmas.Index
 import Xo.Model.RefGraph
 import Xo.Model.Placement
+import Xo.Lemmas.Assign
 /-! C11 — operations that cannot be honoured fail without side effects (property theorems only).
 The model's assignment returns either an error (and then there is no new memory: the buffer is what it was) or the new
 memory; these theorems say when each happens and that a success never leaves the slot's extent.  The ORDER of checks and
@@ -206,6 +207,79 @@ theorem C11_nonmember_refused (u : RG.Univ) (s : RG.St) (ha k ta : Nat) (h t : R
   | scal => rfl
   | ref c => simp only at hn; simp [hn]
   | uref cs => simp only at hn; simp [hn]
+
+/-! ### whole-array updates (`Array._update`, model `Lay.updateArr`: executed by the `lay` driver on every whole-array assignment of a
+reference-free type against the library - the buffer image after an accepted update, the unchanged image at a refusal) -/
+
+/-- **an array update of different length or shape is refused**: the value's shape is compared with the dimensions the instance
+holds (header words for dynamic dimensions) - nothing is written -/
+theorem C11_array_update_shape_refused (it : Ty) (shape : List (Option Nat)) (order : List Nat) (m : Mem) (addr : Nat)
+    (sh : List Nat) (items : List Val)
+    (h : sh ≠ readDims m shape (if (ainfo it shape).staticShape && (ainfo it shape).staticType then 0 else addr + 8)) :
+    updateArr it shape order m addr (.arr sh items) = .error .value := by
+  unfold updateArr
+  by_cases hs : ((ainfo it shape).staticShape && (ainfo it shape).staticType) = true
+  · simp only [hs, ↓reduceIte] at h ⊢
+    simp [h]
+  · simp only [hs, Bool.false_eq_true, ↓reduceIte] at h ⊢
+    simp [h]
+
+/-- **items too large for the space fixed at creation are refused**: a value of the right shape that needs more bytes than the size
+stored in the instance (dynamically sized items that grew) - nothing is written -/
+theorem C11_array_update_too_large_refused (it : Ty) (shape : List (Option Nat)) (order : List Nat) (m : Mem) (addr : Nat)
+    (sh : List Nat) (items : List Val)
+    (hd : ((ainfo it shape).staticShape && (ainfo it shape).staticType) = false)
+    (h : fromLE (readAt m addr 8) < vsize (.array it shape order) (.arr sh items)) :
+    updateArr it shape order m addr (.arr sh items) = .error .value := by
+  unfold updateArr
+  simp only [hd, Bool.false_eq_true, ↓reduceIte]
+  split
+  · rfl
+  · simp [h]
+
+/-- **an accepted update never writes beyond its target**: it needs at most the instance's size, rewrites only bytes of
+`[addr, addr + size)`, keeps the buffer's length, and the size word it leaves is the instance's own - the size of an instance does
+not change -/
+theorem C11_array_update_frame (it : Ty) (shape : List (Option Nat)) (order : List Nat) (m m' : Mem) (addr : Nat)
+    (sh : List Nat) (items : List Val) (hwf : (Ty.array it shape order).WF) (hc : Conf (.array it shape order) (.arr sh items))
+    (hd : ((ainfo it shape).staticShape && (ainfo it shape).staticType) = false)
+    (hb : addr + fromLE (readAt m addr 8) ≤ m.length)
+    (h : updateArr it shape order m addr (.arr sh items) = .ok m') :
+    vsize (.array it shape order) (.arr sh items) ≤ fromLE (readAt m addr 8) ∧ m'.length = m.length ∧
+    (∀ i, (i < addr ∨ addr + fromLE (readAt m addr 8) ≤ i) → m'[i]? = m[i]?) := by
+  generalize hcur : fromLE (readAt m addr 8) = cur at *
+  unfold updateArr at h
+  simp only [hd, Bool.false_eq_true, ↓reduceIte, hcur] at h
+  split at h
+  · cases h
+  · split at h
+    · cases h
+    · rename_i hsh hfit
+      injection h with h; subst h
+      have hw := withinD _ _ hwf hc
+      have h8 : ∀ bs rest, patchesD (.array it shape order) (.arr sh items) = (0, bs) :: rest → 8 ≤ bs.length := by
+        intro bs rest he
+        simp only [patchesD, hd, Bool.false_eq_true, ↓reduceIte, List.cons.injEq, Prod.mk.injEq, true_and] at he
+        rw [← he.1, words_length]
+        simp only [List.length_cons]
+        omega
+      have hk := keepSize_within cur _ 0 _ hw h8
+      have hs := within_shift (d := addr) hk
+      have hle : vsize (.array it shape order) (.arr sh items) ≤ cur := by omega
+      have hf := apply_frame _ m (0 + addr) (vsize (.array it shape order) (.arr sh items) + addr) hs (by omega)
+      refine ⟨hle, hf.1, ?_⟩
+      intro i hi
+      exact hf.2 i (by omega)
+
+/-! non-vacuity: `Int64[:]` of two items at offset 8 of a 40-byte memory (32-byte instance): a value of the same length is written inside the
+instance and keeps the size word, three items are refused -/
+example :
+    let ty := Ty.array (.scalar 8) [none] [0]
+    let m := zeros 8 ++ apply (patchesD ty (.arr [2] [.bits 1, .bits 2])) (zeros 32)
+    (∃ m', updateArr (.scalar 8) [none] [0] m 8 (.arr [2] [.bits 7, .bits 9]) = .ok m' ∧ readD ty m' 8 = .arr [2] [.bits 7, .bits 9] ∧
+        fromLE (readAt m' 8 8) = 32 ∧ m'.take 8 = zeros 8) ∧
+      updateArr (.scalar 8) [none] [0] m 8 (.arr [3] [.bits 7, .bits 9, .bits 1]) = .error .value := by
+  refine ⟨⟨_, rfl, by rfl, by decide, by decide⟩, by rfl⟩
 
 /-! ### placement refusals (`typeutils.allocate_on_buffer`; component `place` runs `Place.decide` against the library for every
 combination of context / buffer / offset arguments) -/
